@@ -28,7 +28,8 @@ RowHasPos(row, p) == \E i \in 1..Len(row) : row[i][1] = p
 
 \* Reference step.  st = [text, pos, pref] (pref = remembered preferred column or -9 for none);
 \* cur = <<x, y>> cursor cell before the key (0-based), stops as above, caplen.
-\* Returns [text, pos, pref, handled].
+\* Returns [text, pos, pref, handled].  An edit attempt (backspace / delete) forgets the preferred column even when there
+\* is nothing to delete: the property does not say what the preferred column is after a refused key, the code forgets it.
 Ref(st, key, cur, stops, caplen, opt) ==
   LET text == st.text  pos == st.pos  n == Len(text)
       y == cur[2] + 1
@@ -47,8 +48,8 @@ Ref(st, key, cur, stops, caplen, opt) ==
                            ELSE Keep(FALSE)
        [] key.k = "left" -> IF pos = 0 THEN Keep(FALSE) ELSE [text |-> text, pos |-> pos - 1, pref |-> -9, handled |-> TRUE, exact |-> TRUE, row |-> 0]
        [] key.k = "right" -> IF pos >= n THEN Keep(FALSE) ELSE [text |-> text, pos |-> pos + 1, pref |-> -9, handled |-> TRUE, exact |-> TRUE, row |-> 0]
-       [] key.k = "backspace" -> IF pos = 0 THEN Keep(FALSE) ELSE [text |-> DeleteAt(text, pos - 1), pos |-> pos - 1, pref |-> -9, handled |-> TRUE, exact |-> TRUE, row |-> 0]
-       [] key.k = "delete" -> IF pos >= n THEN Keep(FALSE) ELSE [text |-> DeleteAt(text, pos), pos |-> pos, pref |-> -9, handled |-> TRUE, exact |-> TRUE, row |-> 0]
+       [] key.k = "backspace" -> IF pos = 0 THEN [Keep(FALSE) EXCEPT !.pref = -9] ELSE [text |-> DeleteAt(text, pos - 1), pos |-> pos - 1, pref |-> -9, handled |-> TRUE, exact |-> TRUE, row |-> 0]
+       [] key.k = "delete" -> IF pos >= n THEN [Keep(FALSE) EXCEPT !.pref = -9] ELSE [text |-> DeleteAt(text, pos), pos |-> pos, pref |-> -9, handled |-> TRUE, exact |-> TRUE, row |-> 0]
        [] key.k = "home" -> MoveTo(StopFor(stops[y], -1)[1], -1)
        [] key.k = "end" -> MoveTo(StopFor(stops[y], -2)[1], -2)
        [] key.k = "up" -> IF y - 1 < 1 \/ ~(\E i \in 1..Len(stops[y - 1]) : stops[y - 1][i][1] >= caplen) THEN Keep(FALSE)
